@@ -234,13 +234,13 @@ def bounded_step(e):
             for m, x in (n[2], n[2][::-1]):
                 if m[0] == "call" and m[1] == ("g", "min") and len(m[2]) == 2 and not m[3]:
                     for d, step in (m[2], m[2][::-1]):
-                        if d[0] == "bin" and d[1] == "-" and strip_epochs(d[3]) == strip_epochs(x):
+                        if d[0] == "bin" and d[1] == "-" and d[3] == x:  # the very same read (same epoch): a stale copy of x does not bound x
                             return norm(("call", ("g", "min"), (norm(("bin", "+", x, step)), d[2]), ()))
         if n[0] == "bin" and n[1] == "-":
             x, m = n[2], n[3]
             if m[0] == "call" and m[1] == ("g", "min") and len(m[2]) == 2 and not m[3]:
                 for d, step in (m[2], m[2][::-1]):
-                    if d[0] == "bin" and d[1] == "-" and strip_epochs(d[2]) == strip_epochs(x):
+                    if d[0] == "bin" and d[1] == "-" and d[2] == x:
                         return norm(("call", ("g", "max"), (norm(("bin", "-", x, step)), d[3]), ()))
         return None
     return mapx(e, f)
